@@ -5,7 +5,7 @@ from . import seqs
 
 ID = "C04"
 LEVEL = "exploration"
-BUDGET = {"quick": 1600, "thorough": 120000}
+BUDGET = {"quick": 1600, "thorough": 360000}
 RULE = ("case = op list (push/pop/push_at/pop_at/set/get/rem/mem/concat/append/resize/sort/assign/copy, bulk push/pop "
         "runs up to 120 elements) over Array/List of Int|String and heap Tuple of distinct heap objects, indices generated "
         "as in-range positions (positive and negative forms); after every mutation len, forward iteration, get(i) and "
